@@ -465,6 +465,21 @@ def run(ctx):
         rng.shuffle(order["points"])
         txt2 = render(net, rng, order=order, covs=covs)
         r3 = run_g3(bdir, txt2, ctx.scratch, "c19s_%d" % t, algs[0])
+        if algs[0] == "envelope" and r3["res"] is not None and r3["res"]["defect"] < ref["defect"]:
+            # the recorded envelope finding can also be met in the reordered file only (another elimination order): recognised by
+            # the tiny pivot of ITS factorisation and by gso agreeing with the reference on the same file
+            r3e = run_g3(bdir, txt2, ctx.scratch, "c19sp_%d" % t, "envelope", pe=True)
+            r3g = run_g3(bdir, txt2, ctx.scratch, "c19sg_%d" % t, "gso")
+            try:
+                piv = envelope_pivots(exe, parse_pe(r3e["pe"]))
+            except Exception:
+                piv = []
+            nz = sorted(abs(v_) for v_ in piv if v_ != 0)
+            if r3g["res"] is not None and r3g["res"]["defect"] == ref["defect"] and nz and nz[0] < 1e-4 * nz[len(nz) // 2]:
+                if not ctx.violation({"kind": "E:g3", "input": txt2, "envelope_pivots": piv, "defect_envelope": r3["res"]["defect"], "defect_gso": r3g["res"]["defect"]},
+                                     "envelope reports defect %d on the reordered records, gso %d" % (r3["res"]["defect"], r3g["res"]["defect"]),
+                                     key="C19:envelope-undercounts-defect-after-tiny-pivot"):
+                    r3 = r3g
         if r3["res"] is None:
             dd.append("the same records in another order are not adjusted: %s" % (r3["out"] + r3["err"])[-200:])
         else:
@@ -514,7 +529,7 @@ def run(ctx):
             dd.append("project-equations dump unusable: %s" % e)
         if dd:
             bad += 1
-            ctx.violation({"kind": "E:g3", "input": txt, "differences": dd[:10], "datum": net["datum"]}, "gama-g3: %s" % dd[0])
+            ctx.violation({"kind": "E:g3", "input": txt, "input_reordered": txt2 if any("record order" in x_ for x_ in dd) else None, "differences": dd[:10], "datum": net["datum"]}, "gama-g3: %s" % dd[0])
         if bad >= 3:
             break
     ctx.obligation(bad == 0, "E:g3")
